@@ -53,4 +53,7 @@ def allClearsUnderLock : Bool := clearSites.all (·.2.2) && !clearSites.isEmpty
 /-- Transport._parse_newkeys assigns `self.auth_handler` only under an `auth_handler is None` test -/
 def newkeysKeepsAuthHandler : Bool := true
 
+/-- Packetizer._check_keepalive returns before the callback while a rekey request is pending -/
+def keepaliveSilentWhileRekeyPending : Bool := true
+
 end PV.Generated.C11
